@@ -127,6 +127,43 @@ def obs_property(families, life=True):
     return run
 
 
+def c20(report, tier, seed):
+    from . import expose
+    cov = expose.run(report, tier, seed)
+    cov["trusted_base"] = TRUSTED + ["harness/expose.py (table of documented accessors per class)"]
+    return report.finish(cov, [
+        "every distinct message of the bounded generators of MC_merge (all 24 classes; targets in {id, unknown id, blank, "
+        "missing}; 1..2/3 sources; 0..2/3 carried), rendered compact or pretty-printed",
+        "inspect() must not raise and must mention every source / carried id it names (labels are not judged)"])
+
+
+def c19(report, tier, seed):
+    from . import cli
+    cov = cli.run(report, tier, seed)
+    cov["trusted_base"] = TRUSTED + ["harness/cli.py (file rendering, line parsing)"]
+    return report.finish(cov, [
+        "file lists up to 2/3 over {RunningOrder, completed RunningOrder, StoryAppend, EAStoryMove, non-XML, unknown XML, "
+        "missing path, directory} plus one list per message class (alone and followed by a completed running order), for detect and inspect",
+        "merge: every id-ordered collection up to 3/4 documents of the pool x --incomplete x --non-strict x -o, files supplied in shuffled order",
+        "a valid file needs exactly one stdout line '<file>: <Class>[ (completed)]' in argument order; an invalid one a line "
+        "'<file>: <not a class name>' on stdout or stderr; library log lines are ignored; None and 0 are both exit status 0",
+        "S3 options (-b/-p/-s/-k) are not exercised here"])
+
+
+def c18(report, tier, seed):
+    from . import sources, collection
+    covs = [("sources", sources.run(report, tier, seed)),
+            ("collection", collection.run(report, tier, seed, ("coll_reader", "coll_fold")))]
+    cov = combine(covs)
+    cov["trusted_base"] = TRUSTED + ["harness/sources.py ListingFake / harness/collection.py FakeS3 (shape of boto3 responses)"]
+    return report.finish(cov, A_COLL + [
+        "bucket listings: every bucket of up to 4/5 keys (under / not under the prefix, with / without the suffix) x page size "
+        "1..2/3 x prefix given, empty or omitted x default / explicit suffix, answered by an in-memory paginator",
+        "one document per class (x2/8 content samples with Unicode and markup-significant text) loaded from file, str, bytes, "
+        "fake S3 object and through MosReader: same class and serialisation (differential; the TLA+ content of this part is small)",
+        "real S3 is not reachable offline"])
+
+
 def c12(report, tier, seed):
     from . import classify, collection
     covs = [("merge", pipeline.run_merge_check(report, fam(tier, story=STORY, item=ITEM, other=OTHER), seed, tier)),
@@ -173,6 +210,9 @@ REGISTRY = {
     "C13": life_property(A_LIFE),
     "C14": life_property(A_LIFE),
     "C12": c12,
+    "C18": c18,
+    "C19": c19,
+    "C20": c20,
     "C15": obs_property(("timing", "text")),
     "C16": obs_property(("timing",)),
     "C17": obs_property(("text",)),
